@@ -25,7 +25,7 @@ RULE = ("trees of depth <= 4 over a small vocabulary (build, src, docs, a.log, a
         "the root is not the repository root, or the root is relative; for two roots: both roots filter something); distinct by canonical JSON of the case.")
 ASSUMPTIONS = [
     "patterns outside the generated subset (character classes, escapes, subinclude, rootglob:), global git excludes and nested repositories are not generated",
-    "negations only re-include entries that do not lie below an ignored directory (all three tools cannot re-include those)",
+    "git and hg cannot re-include an entry below an ignored directory; Docker can (`sub` then `!sub/keep.txt`), its matcher decides per path",
     "the hg and docker references are this harness' reading of hgignore(5) and the Docker build documentation for the generated subset",
 ]
 
@@ -107,6 +107,12 @@ def strategy_(draw, tier, tool=None):
         if draw(st.sampled_from(range(3))) == 0:
             lines.append("!" + draw(st.sampled_from(["keep.log", "abc", "a.log", "notes.md", "src/a.log", "x.tmp",
                                                     "*.txt", "*.log", "*.md", "a*", "keep.*"])))
+    if tool == "docker" and pdirs and draw(st.sampled_from(range(4))) == 0:
+        # an excluded directory with an exception inside it: `sub`, ..., `!sub/file`
+        d = draw(st.sampled_from(pdirs))
+        inside = ["/".join(rel) for rel, n, _ in trees.walk(spec) if "/".join(rel).startswith(d + "/")]
+        if inside:
+            lines = [draw(st.sampled_from([d, d + "/", d + "/*"]))] + lines + ["!" + draw(st.sampled_from(inside))]
     tops = [n for n, nd in spec.items() if nd["t"] == "d"]
     root = draw(st.sampled_from(["dot", "dot", "dotslash", "abs", "sub", "abs-sub", "cwd-below"]))
     sub = draw(st.sampled_from(tops)) if tops else None
@@ -475,6 +481,10 @@ def check(case):
                 direct = {r for r in every if docker_ignored(case["lines"], r)}
             # an ignored directory hides its subtree (below the repository root)
             def omitted(r):
+                if tool == "docker":
+                    # Docker's matcher (MatchesOrParentMatches) already looks at the parents of every path, and a later
+                    # `!` line re-includes a file below an excluded directory: the verdict of the path itself decides
+                    return r in direct
                 parts = r.split("/")
                 return any("/".join(parts[:i]) in direct for i in range(1, len(parts) + 1))
             # ancestors above the search root matter too (root inside an ignored directory)
@@ -487,7 +497,7 @@ def check(case):
                 elif tool == "hg":
                     anc_ignored = any(hg_ignored(case["lines"], a) for a in anc)
                 else:
-                    anc_ignored = any(docker_ignored(case["lines"], a) for a in anc)
+                    anc_ignored = False      # Docker decides per path (parents included), see omitted()
             if True:
                 # a root that lies below an ignored directory: every entry has an ignored ancestor
                 want = [] if anc_ignored else [p for p in U if p in cand and not omitted(cand[p])]
